@@ -1174,9 +1174,9 @@ fn cross_cases() -> Vec<(&'static str, RTy)> {
         ("fn c14(s) { case s { {Q}Circle(r: n) -> n {Q}Square(side: n) -> n } }", f(vec![shape()], Int)),
         ("fn c15(w: {Q}Wrap({Q}Figure)) { w.inner }", f(vec![wrap(shape())], shape())),
         // a constructor without fields of the other module's plain type, then something of the using module
-        ("fn c16() { let t = {Q}Low let h = home(1) #(t, h) }", f(vec![], Tuple(vec![Named("Tone".into(), vec![]), Named("Own".into(), vec![])]))),
-        ("fn c17(t) { case t { {Q}Low -> home(1) {Q}High -> home(2) } }", f(vec![Named("Tone".into(), vec![])], Named("Own".into(), vec![]))),
-        ("fn c18() { let t = {Q}High let o: Own = home(3) #(o, t) }", f(vec![], Tuple(vec![Named("Own".into(), vec![]), Named("Tone".into(), vec![])]))),
+        ("fn c16() { let t = {Q}Low let h = Own(1) #(t, home(h.n)) }", f(vec![], Tuple(vec![Named("Tone".into(), vec![]), Named("Own".into(), vec![])]))),
+        ("fn c17(t) { case t { {Q}Low -> Own(1) {Q}High -> home(2) } }", f(vec![Named("Tone".into(), vec![])], Named("Own".into(), vec![]))),
+        ("fn c18() { let t = {Q}High let o: Own = todo #(o, t) }", f(vec![], Tuple(vec![Named("Own".into(), vec![]), Named("Tone".into(), vec![])]))),
     ]
 }
 
